@@ -40,6 +40,7 @@ class Elem(Cell):
         self.dom = dom
         self.site = site
         self.name = "%s[%s]" % (arr.name, idx)
+        self.serial = 1 << 60
 
     def get(self):
         self.dom.on_read(self.arr, self.idx, self.site)
@@ -271,6 +272,14 @@ class ConcDomain(Domain):
             if op in ("==", "!=", "<", "<=", ">", ">="):
                 return {"==": a.off == b.off, "!=": a.off != b.off, "<": a.off < b.off, "<=": a.off <= b.off,
                         ">": a.off > b.off, ">=": a.off >= b.off}[op]
+        def pointee(x):
+            if isinstance(x, tuple) and len(x) == 2 and x[0] == "addr":
+                y = x[1]
+                return y.get() if isinstance(y, Cell) else y
+            return x
+        if op in ("==", "!=") and (isinstance(a, Obj) or isinstance(b, Obj) or (isinstance(a, tuple) and a and a[0] == "addr") or (isinstance(b, tuple) and b and b[0] == "addr")):
+            same = pointee(a) is pointee(b)
+            return same if op == "==" else not same
         if a is None or b is None:
             if op == "==":
                 return a is b
